@@ -626,6 +626,20 @@ func dispatchShape(c *core.Ctx, d *dispatcher, name string) {
 		r0, r1 = res(r0), res(r1)
 		pduNil := paths.IsNilConst(r0)
 		errNil := paths.IsNilConst(r1)
+		// a value the path has tested and found nil is nil (`if err == nil { return nil, err }`)
+		for _, e := range p.Events {
+			if e.Kind != paths.EvBranch {
+				continue
+			}
+			if subj, neq, ok := nilTest(e.Cond); ok && neq != e.Taken {
+				switch e.Resolve(subj) {
+				case r1:
+					errNil = true
+				case r0:
+					pduNil = true
+				}
+			}
+		}
 		switch {
 		case pduNil && errNil:
 			problems = append(problems, "a path returns a nil PDU with a nil error")
@@ -766,7 +780,7 @@ func ownerType(info *types.Info, fd *ast.FuncDecl, byNamed map[*types.TypeName]*
 // than a header. Any refusal that depends on the header's content (a sequence range, a status value ...) makes the
 // dispatcher reject PDUs that the package's own encoders produce.
 func peekRule(c *core.Ctx) {
-	c.MinInstances("C10-PEEK", 4)
+	c.MinInstances("C10-PEEK", 8)
 	for _, rel := range []string{"smpp", "cmpp", "smgp", "sgip"} {
 		key := rel + ".PeekHeader"
 		fn := c.Prog.SSAFunc(c.Prog.LookupFunc(rel, "PeekHeader"))
@@ -816,5 +830,253 @@ func peekRule(c *core.Ctx) {
 			problems = append(problems, "no accepting path")
 		}
 		c.Decide(len(problems) == 0, "C10-PEEK", key, pos, fmt.Sprintf("%d paths, refusal only by len(buf) < header size", len(ps)), strings.Join(dedup(problems), "; "))
+		// the peeked header is the header the decoders read: every field comes from the offset at which the sibling
+		// ReadHeader reads it sequentially (big-endian, same width), and a buffer is refused exactly when it is shorter
+		// than the header
+		rd := c.Prog.SSAFunc(c.Prog.LookupFunc(rel, "ReadHeader"))
+		if rd == nil {
+			c.Broken("C10-PEEK", key+"#layout", "sibling ReadHeader not found")
+			continue
+		}
+		want, total, why1 := headerFieldSources(rd, false)
+		got, _, why2 := headerFieldSources(fn, true)
+		var lp []string
+		if why1 != "" {
+			lp = append(lp, "ReadHeader: "+why1)
+		}
+		if why2 != "" {
+			lp = append(lp, "PeekHeader: "+why2)
+		}
+		var names []string
+		for f := range want {
+			names = append(names, f)
+		}
+		for f := range got {
+			if _, ok := want[f]; !ok {
+				names = append(names, f)
+			}
+		}
+		sort.Strings(names)
+		for _, f := range names {
+			w, okW := want[f]
+			g, okG := got[f]
+			switch {
+			case !okG:
+				lp = append(lp, fmt.Sprintf("field %s is read by ReadHeader (offset %d) but not set by PeekHeader: the dispatcher sees its zero value", f, w.off))
+			case !okW:
+				lp = append(lp, fmt.Sprintf("field %s is set by PeekHeader but not read by ReadHeader", f))
+			case w != g:
+				lp = append(lp, fmt.Sprintf("field %s: ReadHeader reads %d octets at offset %d, PeekHeader takes %d octets at offset %d", f, w.width, w.off, g.width, g.off))
+			}
+		}
+		// refusal threshold
+		thr := int64(-1)
+		for _, b := range fn.Blocks {
+			ifi, ok := b.Instrs[len(b.Instrs)-1].(*ssa.If)
+			if !ok {
+				continue
+			}
+			bo, ok := ifi.Cond.(*ssa.BinOp)
+			if !ok {
+				continue
+			}
+			x, y, op := bo.X, bo.Y, bo.Op
+			if _, isK := x.(*ssa.Const); isK {
+				x, y = y, x
+				op = map[token.Token]token.Token{token.LSS: token.GTR, token.GTR: token.LSS, token.LEQ: token.GEQ, token.GEQ: token.LEQ, token.EQL: token.EQL, token.NEQ: token.NEQ}[op]
+			}
+			k, isK := constInt(y)
+			call, isC := x.(*ssa.Call)
+			if !isK || !isC {
+				continue
+			}
+			if bi, isB := call.Call.Value.(*ssa.Builtin); !isB || bi.Name() != "len" {
+				continue
+			}
+			// which side refuses (returns a non-nil error)?
+			refuses := func(blk *ssa.BasicBlock) bool {
+				for i := 0; i < 4 && blk != nil; i++ {
+					if ret, ok := blk.Instrs[len(blk.Instrs)-1].(*ssa.Return); ok {
+						return len(ret.Results) == 2 && !paths.IsNilConst(ret.Results[1])
+					}
+					if len(blk.Succs) != 1 {
+						return false
+					}
+					blk = blk.Succs[0]
+				}
+				return false
+			}
+			switch {
+			case refuses(b.Succs[0]) && !refuses(b.Succs[1]):
+				// refused iff len <op> k
+				switch op {
+				case token.LSS:
+					thr = k
+				case token.LEQ:
+					thr = k + 1
+				}
+			case refuses(b.Succs[1]) && !refuses(b.Succs[0]):
+				// accepted iff len <op> k
+				switch op {
+				case token.GEQ:
+					thr = k
+				case token.GTR:
+					thr = k + 1
+				}
+			}
+		}
+		if thr != total {
+			lp = append(lp, fmt.Sprintf("a buffer is refused when shorter than %d octets, the header has %d: %s", thr, total,
+				map[bool]string{true: "a header-only PDU of exactly the header's length is refused", false: "a shorter buffer reaches the field reads"}[thr > total]))
+		}
+		c.Decide(len(lp) == 0, "C10-PEEK", key+"#layout", pos, fmt.Sprintf("%d fields at ReadHeader's offsets, refused iff len(buf) < %d", len(want), total), strings.Join(dedup(lp), "; "))
 	}
+}
+
+type hdrSrc struct {
+	off   int64
+	width int64
+}
+
+// headerFieldSources maps each field (path) of the header struct built by fn to where its value comes from:
+// for ReadHeader the running offset of the ReadUintN call, for PeekHeader the offset of the big-endian read of the
+// buffer parameter. total is the sum of the widths.
+func headerFieldSources(fn *ssa.Function, peek bool) (map[string]hdrSrc, int64, string) {
+	out := map[string]hdrSrc{}
+	why := ""
+	// ReadHeader: offsets by call order (straight-line code only)
+	callOff := map[*ssa.Call]hdrSrc{}
+	var total int64
+	if !peek {
+		for _, b := range fn.Blocks {
+			if _, isIf := b.Instrs[len(b.Instrs)-1].(*ssa.If); isIf {
+				why = "not straight-line code"
+			}
+			for _, ins := range b.Instrs {
+				call, ok := ins.(*ssa.Call)
+				if !ok {
+					continue
+				}
+				n := calleeName(call)
+				if !strings.HasSuffix(n, "/packet.(Reader).ReadUint8") && !strings.HasSuffix(n, "/packet.(Reader).ReadUint16") && !strings.HasSuffix(n, "/packet.(Reader).ReadUint32") && !strings.HasSuffix(n, "/packet.(Reader).ReadUint64") {
+					if strings.Contains(n, "/packet.(Reader).") {
+						why = "reads with " + n
+					}
+					continue
+				}
+				w := map[string]int64{"8": 1, "16": 2, "32": 4, "64": 8}[n[strings.LastIndex(n, "Uint")+4:]]
+				callOff[call] = hdrSrc{total, w}
+				total += w
+			}
+		}
+	}
+	src := func(v ssa.Value) (hdrSrc, bool) {
+		v = stripConv(v)
+		if ct, ok := v.(*ssa.ChangeType); ok {
+			v = stripConv(ct.X)
+		}
+		if !peek {
+			call, ok := v.(*ssa.Call)
+			if !ok {
+				return hdrSrc{}, false
+			}
+			s, ok := callOff[call]
+			return s, ok
+		}
+		if info, ok := beCompose(v); ok && info.big && info.base == ssa.Value(fn.Params[0]) {
+			return hdrSrc{info.off, int64(info.width)}, true
+		}
+		call, ok := v.(*ssa.Call)
+		if !ok {
+			return hdrSrc{}, false
+		}
+		cal := call.Call.StaticCallee()
+		if cal == nil || cal.Pkg == nil || cal.Pkg.Pkg.Path() != "encoding/binary" || cal.Signature.Recv() == nil || !strings.Contains(cal.Signature.Recv().Type().String(), "bigEndian") || !strings.HasPrefix(cal.Name(), "Uint") {
+			return hdrSrc{}, false
+		}
+		w := map[string]int64{"Uint16": 2, "Uint32": 4, "Uint64": 8}[cal.Name()]
+		arg := call.Call.Args[1]
+		off := int64(0)
+		if sl, ok := arg.(*ssa.Slice); ok {
+			if sl.Low != nil {
+				k, isK := constInt(sl.Low)
+				if !isK {
+					return hdrSrc{}, false
+				}
+				off = k
+			}
+			arg = sl.X
+		}
+		if arg != ssa.Value(fn.Params[0]) {
+			return hdrSrc{}, false
+		}
+		return hdrSrc{off, w}, true
+	}
+	record := func(path string, v ssa.Value) {
+		// an array composite: the elements
+		if ld, ok := v.(*ssa.UnOp); ok && ld.Op == token.MUL {
+			if al, ok := ld.X.(*ssa.Alloc); ok {
+				if vals := arrayStores(al); len(vals) > 0 {
+					for i, ev := range vals {
+						if ev == nil {
+							why = "element " + fmt.Sprint(i) + " of " + path + " is not set"
+							continue
+						}
+						if s, ok := src(ev); ok {
+							out[fmt.Sprintf("%s[%d]", path, i)] = s
+						} else {
+							why = "the value of " + fmt.Sprintf("%s[%d]", path, i) + " is not a header read"
+						}
+					}
+					return
+				}
+			}
+		}
+		if s, ok := src(v); ok {
+			if old, dup := out[path]; dup && old != s {
+				why = "field " + path + " is set twice"
+			}
+			out[path] = s
+		} else if k, isK := v.(*ssa.Const); !isK || !(k.Value == nil || k.IsNil()) {
+			why = "the value of " + path + " is not a header read"
+		}
+	}
+	for _, b := range fn.Blocks {
+		for _, ins := range b.Instrs {
+			st, ok := ins.(*ssa.Store)
+			if !ok {
+				continue
+			}
+			switch a := st.Addr.(type) {
+			case *ssa.FieldAddr:
+				if _, isAlloc := a.X.(*ssa.Alloc); !isAlloc {
+					continue
+				}
+				if _, f, ok := fieldOfAddr(a); ok {
+					record(f.Name(), st.Val)
+				}
+			case *ssa.IndexAddr:
+				fa, ok := a.X.(*ssa.FieldAddr)
+				if !ok {
+					continue
+				}
+				if _, isAlloc := fa.X.(*ssa.Alloc); !isAlloc {
+					continue
+				}
+				if _, f, ok := fieldOfAddr(fa); ok {
+					if k, isK := constInt(a.Index); isK {
+						record(fmt.Sprintf("%s[%d]", f.Name(), k), st.Val)
+					}
+				}
+			}
+		}
+	}
+	if peek {
+		for _, s := range out {
+			if s.off+s.width > total {
+				total = s.off + s.width
+			}
+		}
+	}
+	return out, total, why
 }
